@@ -6,6 +6,7 @@ import (
 	"encoding/base64"
 	"encoding/hex"
 	"fmt"
+	"math"
 	"math/rand"
 	"reflect"
 	"sort"
@@ -360,7 +361,10 @@ func (w *c24World) genItem(rng *rand.Rand, K string, seq uint64, ref *c24Ref) c2
 		case y < 5:
 			return c24Item{vals: []c24Val{hdr("auth"), c24Mk("right key", &ipcAuthReq{AuthKey: K})}, desc: "auth/right"}
 		case y < 11:
-			wrong := []string{"", K + "x", K[:len(K)-1], "wrong", strings.ToUpper(K) + "!", " " + K, K + "\x00"}[rng.Intn(7)]
+			wrong := []string{"", K + "x", K[:len(K)-1], "wrong", strings.ToUpper(K) + "!", " " + K, K + "\x00", strings.TrimSpace(K) + "!"}[rng.Intn(8)]
+			if t := strings.TrimSpace(K); t != K && rng.Intn(3) == 0 {
+				wrong = t
+			}
 			return c24Item{vals: []c24Val{hdr("auth"), c24Mk("wrong key", &ipcAuthReq{AuthKey: wrong})}, desc: fmt.Sprintf("auth/wrong(%q)", wrong)}
 		case y == 11:
 			return c24Item{vals: []c24Val{hdr("auth")}, desc: "auth/no-body"}
@@ -417,7 +421,8 @@ type c24Result struct {
 
 func c24Case(t *testing.T, rng *rand.Rand, nSessions int) (res c24Result) {
 	res.counts = map[string]int{}
-	K := []string{"", "secret", "s3cr3t key", "ключ", "k"}[rng.Intn(5)]
+	// (keys made of or padded with white space are keys like any other)
+	K := []string{"", "secret", "s3cr3t key", "ключ", "k", "", "secret", " ", "\t\n", "tok3n\n", "  pad"}[rng.Intn(11)]
 	synctest.Test(t, func(t *testing.T) {
 		key := make([]byte, 16)
 		rng.Read(key)
@@ -465,8 +470,20 @@ func c24Case(t *testing.T, rng *rand.Rand, nSessions int) (res c24Result) {
 			}
 			// ---------------- not yet authorised
 			maxItems := 2 + rng.Intn(8)
+			// sequence numbers are the client's business: a fifth of the sessions start at 0, and a request
+			// may repeat the number of the one before
+			if rng.Intn(5) == 0 {
+				seq = math.MaxUint64
+			}
 			for it := 0; it < maxItems && !ref.open() && !ref.ended && !cl.EOF(); it++ {
-				seq++
+				if it == 0 || rng.Intn(6) != 0 {
+					seq++
+				} else {
+					res.counts["requests_repeating_the_previous_seq"]++
+				}
+				if seq == 0 {
+					res.counts["requests_with_seq_0"]++
+				}
 				item := w.genItem(rng, K, seq, ref)
 				before := w.snapshot()
 				var exps []c24Expect
